@@ -22,8 +22,8 @@ ENG_NAME = {"i": "interp", "0": "gen-O0", "1": "gen-O1", "2": "gen-O2", "3": "ge
 
 TIERS = {
     # (cfg, simulate, engines)
-    "quick": {"graph": "SysVABI_mc.cfg", "res": "SysVABI_res.cfg", "sim": 60, "engines": "i 2"},
-    "thorough": {"graph": "SysVABI_t.cfg", "res": "SysVABI_rest.cfg", "sim": 1700, "engines": "i 0 1 2 3"},
+    "quick": {"graph": "SysVABI_mc.cfg", "res": "SysVABI_res.cfg", "sim": 25, "engines": "i 2"},
+    "thorough": {"graph": "SysVABI_t.cfg", "res": "SysVABI_rest.cfg", "sim": 420, "engines": "i 0 1 2 3"},
 }
 
 
@@ -271,7 +271,8 @@ def place(args, dev=frozenset()):
                 if c == "I":
                     locs.append({"c": "gpr", "i": ni}); ni += 1
                 else:
-                    locs.append({"c": "xmm", "i": xi}); xi += 1; nx += 1
+                    # (with the counter at 8 the ff-call encodes xmm8, which the instruction encoding wraps to xmm0)
+                    locs.append({"c": "xmm", "i": xi % 8 if "blk3_sse_reg" in dev else xi}); xi += 1; nx += 1
             if t == "blk1" and "blk1_xmm_advance" in dev:
                 nx += need_i                     # INTEGER eightbytes also advance the xmm counter
             if t in ("blk3", "blk4") and "blk34_two_xmm" in dev:
@@ -322,19 +323,22 @@ class Cap:
         return self.stk[j] if j < len(self.stk) else None
 
 
-def arg_mismatches(args, locs, vals, cap):
-    """[(arg index, eightbyte, loc, expected, got)] comparing only the bytes the prototype defines"""
-    bad = []
+def arg_mismatches(args, locs, vals, cap, overwrite=False):
+    """[(arg index, eightbyte, loc, expected, got)] comparing only the bytes the prototype defines.
+    The spec's placement never overlaps (invariant Disjoint).  overwrite=True is for deviant machines only: writes
+    are applied in argument order and a later argument overwrites an earlier one at the same location."""
+    img = {}
     for i, a in enumerate(args):
         nd = defbytes(a)
         for j, loc in enumerate(locs[i]):
             k = min(8, nd - 8 * j)
-            if k <= 0:
-                continue
-            e = vals[i][8 * j:8 * j + k]
-            g = cap.at(loc)
-            if g is None or g[:k] != e:
-                bad.append((i, j, loc, e.hex(), None if g is None else g[:k].hex()))
+            if k > 0:
+                img[(loc["c"], loc["i"]) if overwrite else (i, j)] = (i, j, loc, vals[i][8 * j:8 * j + k])
+    bad = []
+    for i, j, loc, e in sorted(img.values(), key=lambda x: (x[0], x[1])):
+        g = cap.at(loc)
+        if g is None or g[:len(e)] != e:
+            bad.append((i, j, loc, e.hex(), None if g is None else g[:len(e)].hex()))
     return bad
 
 
@@ -370,29 +374,42 @@ def check_probe(case, vals, raw, capx, outx, eng):
     bad = arg_mismatches(args, locs, vals, cap)
     if bad:
         # is the whole image explained by a listed deviation of the placement machine?
-        expl = None
+        expl, best = None, (len(bad), frozenset(), bad)
         for dv in subsets(DEVIATIONS)[1:]:
             dl = place(args, dv)
-            if dl is not None and not arg_mismatches(args, dl, vals, cap):
+            if dl is None:
+                continue
+            db = arg_mismatches(args, dl, vals, cap, overwrite=True)
+            if not db:
                 expl = dv
                 break
-        i, j, loc, e, g = bad[0]
-        a = args[i]
-        txt = ("%s: argument %d (%s%s) eightbyte %d expected at %s = %s, found %s there; value is at %s; %d eightbytes wrong"
-               % (ENG_NAME[eng], i, a["t"], ":%d" % a["n"] if a["n"] else "", j, locname(loc), e, g,
-                  find_value(cap, bytes.fromhex(e)), len(bad)))
+            if len(db) < best[0]:
+                best = (len(db), dv, db)
+        def describe(b, n):
+            i, j, loc, e, g = b
+            a = args[i]
+            return ("%s: argument %d (%s%s) eightbyte %d expected at %s = %s, found %s there; value is at %s; %d eightbytes wrong"
+                    % (ENG_NAME[eng], i, a["t"], ":%d" % a["n"] if a["n"] else "", j, locname(loc), e, g,
+                       find_value(cap, bytes.fromhex(e)), n))
         if expl:
+            txt = describe(bad[0], len(bad))
             for d in sorted(expl):
                 R.append(("%s:%s" % (pre, d), txt + " [image matches the placement machine with deviation %s]" % "+".join(sorted(expl))))
         else:
-            R.append(("%s:arg:%s:%s" % (pre, a["t"], loc["c"]), txt))
+            n, dv, db = best
+            txt = describe(db[0], n)
+            if dv:
+                txt += " [relative to the placement machine with the listed deviations %s, which explain the rest]" % "+".join(sorted(dv))
+            a = args[db[0][0]]
+            R.append(("%s:arg:%s:%s" % (pre, a["t"], db[0][2]["c"]), txt))
     if (cap.rsp + 8) % 16 != 0:
         R.append(("%s:stack_alignment" % pre, "%s: rsp at the call instruction = 0x%x, not 16-byte aligned" % (ENG_NAME[eng], cap.rsp + 8)))
     if case["nfix"] >= 0:
         al = cap.rax & 0xff
         if not (case["almin"] <= al <= case["almax"]):
+            # listed deviation: %al = min(8, number of float/double arguments), SSE eightbytes of blocks not counted
             xb = any(a["t"] in ("blk2", "blk3", "blk4") and any(l["c"] == "xmm" for l in a["locs"]) for a in args)
-            nfd = sum(1 for a in args if a["t"] in ("f", "d") and a["locs"][0]["c"] == "xmm")
+            nfd = min(8, sum(1 for a in args if a["t"] in ("f", "d")))
             key = "%s:al_ignores_blk_sse" % pre if (xb and al == nfd) else "%s:al" % pre
             R.append((key, "%s: %%al = %d for a `...` call using %d vector registers (legal %d..%d)"
                       % (ENG_NAME[eng], al, case["nx"], case["almin"], case["almax"])))
@@ -599,7 +616,8 @@ def build_callees(cases, workdir):
 
 
 def nstk_for(case):
-    return min(NSTK_MAX, case["stack"] // 8 + 4)
+    # enough for every argument to travel on the stack (a deviant placement may use more than the spec's)
+    return min(NSTK_MAX, sum(neight(a) + (1 if a["t"] == "ld" else 0) for a in case["args"]) + 2)
 
 
 def write_input(path, jobs):
@@ -786,7 +804,6 @@ def replay(path):
     rec = d["case"]
     c, eng = rec["case"], rec["engine"]
     os.environ["VERIF_SEED"] = str(rec.get("seed", 1))
-    ck = Check(PROP, "replay", "model_checking")
     workdir = vlib.scratch_dir("c05r-")
     # values are a function of (seed, case index): regenerate the same stream position
     cases = [c]
@@ -827,7 +844,10 @@ def selftest():
     cases, _ = tlc_cases("quick", want=("res",))
     cases = [c for c in cases if len(c["res"]) == 3][:3]
     g, _ = tlc_cases("quick", want=("graph",))
-    cases += [c for c in g if c["tag"] == "vedge"][100:103]
+    clean = lambda c: (place(c["args"], frozenset(DEVIATIONS)) == [a["locs"] for a in c["args"]]
+                       and not any(a["t"] in ("blk2", "blk3", "blk4") for a in c["args"]))     # not touched by a listed finding
+    cl = [c for c in g if c["tag"] == "vedge" and clean(c)]
+    cases += cl[len(cl) // 2:len(cl) // 2 + 3]
     workdir = vlib.scratch_dir("c05s-")
     exe = build_harness()
     rng = random.Random(5)
